@@ -161,8 +161,11 @@ class RTDCWriter:
         # set event count
         feats = sorted(self.h5file.get("events", {}).keys())
         if feats:
-            self.h5file.attrs["experiment:event count"] = len(
-                self.h5file["events"][feats[0]])
+            evobj = self.h5file["events"][feats[0]]
+            if feats[0] == "trace" and len(evobj):
+                # The trace group holds one dataset per trace name.
+                evobj = evobj[sorted(evobj.keys())[0]]
+            self.h5file.attrs["experiment:event count"] = len(evobj)
         else:
             raise ValueError(f"No features in '{self.path}'!")
 
